@@ -94,6 +94,9 @@ func c07Kinds() []c07kind {
 		{name: "include-missing", src: func(n string) string { return "{% include \"no-such-file-" + n + "\" %}" }, render: true, cause: 1},
 		{name: "include-not-string", src: func(string) string { return "{% include 3 %}" }, render: true},
 		{name: "break-outside-loop", src: func(string) string { return "{% break %}" }, render: true, topOnly: true},
+		{name: "when-evaluation-error", src: func(string) string { return "{% case 1 %}\n\n{% when (1..one) %}x{% endcase %}" }, render: true, offset: after("{% when")},
+		{name: "when-evaluation-error-second", src: func(string) string { return "{% case 1 %}{% when 2 %}\n{% when 3, (empty..2) %}x\n{% else %}{% endcase %}" }, render: true, offset: after("{% when 3")},
+		{name: "elsif-evaluation-error", src: func(string) string { return "{% if false %}\n{% elsif (1..one) %}{% endif %}" }, render: true, offset: after("{% elsif")},
 		{name: "cycle-number-values", src: func(string) string { return "{% for q in one %}{% cycle 1, 2 %}{% endfor %}" }, offset: after("{% cycle")},
 		{name: "cycle-mixed-values", src: func(string) string { return "{% for q in one %}\n{% cycle 'g': 'a', true %}{% endfor %}" }, offset: after("{% cycle")},
 		{name: "cycle-group-without-values", src: func(string) string { return "{% for q in one %}{% cycle 'g': %}{% endfor %}" }, offset: after("{% cycle")},
